@@ -3574,3 +3574,49 @@ def len_weights(r: R, chk, setter: str = "curves.BaseCurve.weights.setter", rule
            detail="" if ok else f"{setter}: no comparison of len({val}) with npts guards the store, and {why}: a weight vector that is too long (no sign change in its first npts entries) is stored — len(weights) != npts, the curve cannot be evaluated",
            func=setter, construct="length of the weights not checked")
     return 1
+
+
+# ---------------------------------------------------------------------------------------------------------
+# QUAD-ORDER: the rule used span by span is exact for the squares of both bases
+def quad_order(r: R, chk, qual: str = "heavy.LeastSquare.func2func", rule="QUAD-ORDER", max_degree: int = 6):
+    """Between two knots of the union the entries of the Gram matrices are polynomials of degree 2p (source x source), p + q and
+    2q (target x target).  The node families used here (open Newton-Cotes for exact data, Chebyshev nodes otherwise) are
+    interpolatory: n nodes integrate degree < n exactly (C10).  The number of nodes is folded for all 0 <= p, q <= 6 and has to
+    exceed 2 max(p, q); with fewer nodes GG (or FF) is integrated inexactly and the result is not the L2 projection / the error is
+    not the integral of the squared residual for a source outside the target space."""
+    fi = r.prog.func(qual)
+    fn = fi.node
+    # the size handed to the node / weight generators
+    sizes = []
+    for c in ast.walk(fn):
+        if isinstance(c, ast.Call) and (seg(c.func).startswith("NodeSample.") or seg(c.func).startswith("IntegratorArray.")) and len(c.args) == 1:
+            sizes.append(c.args[0])
+    chk.floor(rule, f"node / weight generators called in {qual}", len(sizes), 2)
+    names = {seg(s_) for s_ in sizes}
+    bad = None
+    undecided = False
+    pnames = [a.targets[0].id for a in ast.walk(fn) if isinstance(a, ast.Assign) and len(a.targets) == 1 and isinstance(a.targets[0], ast.Name) and isinstance(a.value, ast.Attribute) and a.value.attr == "degree"]
+    old = next((x for x in pnames if "old" in x), None)
+    new = next((x for x in pnames if "new" in x), None)
+    if old is None or new is None or len(names) != 1:
+        chk.note(f"{rule}: {qual}: the degrees / the size of the rule could not be identified: not decided")
+        return 0
+    size = sizes[0]
+    pos = _block_defs(fn)
+    holder = next(st for st in ast.walk(fn) if isinstance(st, ast.stmt) and id(st) in pos and any(x is size for x in ast.walk(st)) and not any(isinstance(s2, ast.stmt) and s2 is not st and any(x is size for x in ast.walk(s2)) for s2 in ast.walk(st)))
+    expr = resolve_reaching(fn, size, holder, keep=(old, new), pos=pos)
+    for p in range(0, max_degree + 1):
+        for q_ in range(0, max_degree + 1):
+            v = _ev(expr, {old: p, new: q_}, 0)
+            if v is UNK or not isinstance(v, int):
+                undecided = True
+                continue
+            if v < 2 * max(p, q_) + 1 and bad is None:
+                bad = (p, q_, v)
+    if undecided and bad is None:
+        chk.note(f"{rule}: {qual}: `{seg(expr, 50)}` could not be folded: not decided")
+        return 0
+    chk.ob(rule, f"{qual}: `{seg(expr, 50)}` nodes integrate the squares of both bases exactly (degrees 0..{max_degree})", bad is None, loc=f"{fi.module}.py:{holder.lineno}",
+           detail="" if bad is None else f"{qual}: for a source of degree {bad[0]} and a target of degree {bad[1]} the rule has {bad[2]} nodes (`{seg(expr, 40)}`), exact for degree < {bad[2]} only, but the Gram matrix of the {'target' if bad[1] >= bad[0] else 'source'} basis has entries of degree {2 * max(bad[0], bad[1])}: the matrices are inexact, the fitted curve is not the L2 projection (the residual is not orthogonal to the target basis) and exact and float input take different wrong answers",
+           func=qual, construct="quadrature too short for the squares of the bases")
+    return 1
